@@ -655,7 +655,8 @@ func leadingMessageBad(spec *drive.ReqSpec) string {
 		codec = strings.TrimPrefix(ct, "application/grpc-web+")
 	case strings.HasPrefix(ct, "application/connect+"):
 		codec = strings.TrimPrefix(ct, "application/connect+")
-	case (ct == "application/proto" || ct == "application/json") && spec.Header.Get("Connect-Protocol-Version") == "1":
+	case (ct == "application/proto" || ct == "application/json") && len(spec.Header.Values("Connect-Protocol-Version")) == 1 && spec.Header.Get("Connect-Protocol-Version") == "1":
+		// (with two such header lines the request is not a Connect request: it is REST with a JSON body)
 		codec, enveloped = strings.TrimPrefix(ct, "application/"), false
 	default:
 		return ""
